@@ -45,7 +45,7 @@ func TestMain(m *testing.M) {
 	pool = gen.NewPool(glue.NewCollectorPoolArgs())
 	if rp := ev.LoadReplay(); rp != nil {
 		if rp.Phase == "verbose_logging" {
-			glue.SetKlogVerbosity(5)
+			glue.SetKlogVerbosity(10)
 		}
 		if rp.Phase == "template_flip" {
 			ev.RunReplay(rp, runFlip)
@@ -647,7 +647,7 @@ func TestC03(t *testing.T) {
 	}
 	// the same oracle with the process-wide log verbosity raised (the decoder logs at V(4)/V(5);
 	// logging must not change what is decoded)
-	glue.SetKlogVerbosity(5)
+	glue.SetKlogVerbosity(10)
 	defer glue.SetKlogVerbosity(0)
 	ev.Rapid(t, rec, "verbose_logging", rec.Scale(2500, 200000), genCase, func(c Case) *ev.Failure {
 		return runRecorded("verbose_logging", c)
